@@ -118,9 +118,9 @@ def main():
         "setup_cmd": "python3 tools/setup.py",
         "hooks": {
             "guard": "--cfg mwlon_quantile_compression_verif",
-            "enable": "no hooks are needed: every observable is public API; the guard name is reserved and unused",
+            "enable": "the harness is built with RUSTFLAGS='--cfg mwlon_quantile_compression_verif' (tools/qco/common.py build_harness); this compiles q_compress/src/verif.rs, an add-only module of public wrappers that run operation scripts on the crate-private BitWords/BitReader/BitWriter; every other observable is public API. Without the flag the module does not exist and the library is unchanged.",
             "baseline_off_cmd": "cd /repo && cargo test --workspace --no-fail-fast --offline",
-            "source_commits": [],
+            "source_commits": ["c2fc263"],
             "add_only": True,
         },
         "engines": [{
